@@ -136,6 +136,8 @@ class DbGen:
             if inner_v in pv:
                 blk.append(('A', 'inner-ax', (Ap(T), V(inner_v))))
             db.append(('B', tuple(blk)))
+            # the parser's accumulator is not scoped: after the block the token is still a metavariable
+            db.append(('A', 'inner-use', (Ap(T), ('A', 'unused-c', (V(inner_v), V(self.usable[0]))))))
         # syntax axioms
         self.syn = {}
         for c, n in self.cons:
